@@ -134,6 +134,13 @@ def items(tier):
                 out.append(dict(kind="history", id="n2-%s-patternchange-%s-to-%s" % (mclass, "".join("%d%d" % tuple(p) for p in za) or "none",
                                                                                       "".join("%d%d" % tuple(p) for p in zb) or "none"),
                                 n=2, mclass=mclass, zeros=za, zeros2=zb, hist=hname, tol=0))
+    # LinSolve handing class flags to the wrapper it creates (the user's flags must not be turned into untrue ones)
+    for mclass, flagsets in (("general", [{}]), ("symmetric", [{}, dict(symmetric=True), dict(hermitian=True)]),
+                             ("hermitian", [{}, dict(hermitian=True)]), ("complex-symmetric", [{}, dict(symmetric=True)]),
+                             ("complex-general", [{}])):
+        for fl in flagsets:
+            out.append(dict(kind="wraps", id="linsolve-wraps-n2-%s-%s" % (mclass, "+".join(sorted(fl)) or "noflags"), n=2,
+                            mclass=mclass, zeros=[], flags=fl))
     if not q:
         import random
         rnd = random.Random(6)
@@ -243,9 +250,49 @@ def sc_rounding_regression(V, P, cfg):
     return dict(worst=worst if np.isfinite(worst) else 1e300, stored=float(nst))
 
 
+def sc_wraps(V, P, cfg):
+    """LinSolve wrapping its solver in an LDAWrapper: the class flags the wrapper is given must be true of the matrix (the
+    wrapper chooses its storage for the adjoint modes from them: a wrong flag silently gives A^-1 b for A^-T b)."""
+    import pymoto as pym
+    from pymoto.solvers import LDAWrapper
+    n = cfg["n"]
+    cplxA = cfg["mclass"] in ("hermitian", "complex-symmetric", "complex-general")
+    A = build_matrix(V, cfg, "A")
+    xs = V.cplxs("x0", (n,)) if cplxA else V.reals("x0", (n,))
+    b = A @ xs
+    if V.symbolic:
+        from symx.oracles import ContractSolver
+        from symx import oracles
+        inner = ContractSolver()
+        b, xs = wrap(np.asarray(b, dtype=object)), wrap(np.asarray(xs, dtype=object))
+        oracles.add_candidate(xs)
+    else:
+        inner = _CountingAuto()
+    sA, sb = pym.Signal("A", A), pym.Signal("b", b)
+    m = pym.LinSolve([sA, sb], solver=inner, **cfg.get("flags", {}))
+    m.response()
+    w = m.solver
+    x = m.sig_out[0].state
+    obs = dict(x=x)
+    if P is not None:
+        P.holds("LinSolve-wraps-its-solver", isinstance(w, LDAWrapper), kind="wrapping")
+        if not cplxA:       # (complex first solves are C01's; here they cost a minute per clause and often stay undecided)
+            P.arrays_eq("state==A^-1 b", np.asarray(x), np.asarray(xs), kind="solves-system")
+        if isinstance(w, LDAWrapper):
+            At = np.asarray(A).T
+            Ah = wrap(At.copy()).conj() if V.symbolic else At.conj()
+            if w.symmetric is not None and bool(w.symmetric):
+                P.arrays_eq("wrapper.symmetric-flag-is-true-of-the-matrix", np.asarray(A), At, kind="class-flags")
+            if w.hermitian is not None and bool(w.hermitian):
+                P.arrays_eq("wrapper.hermitian-flag-is-true-of-the-matrix", np.asarray(A), np.asarray(Ah), kind="class-flags")
+    return obs
+
+
 def scenario(V, P, cfg):
     if cfg.get("kind") == "rounding-regression":
         return sc_rounding_regression(V, P, cfg)
+    if cfg.get("kind") == "wraps":
+        return sc_wraps(V, P, cfg)
     import pymoto as pym
     from pymoto.solvers import LDAWrapper
     n = cfg["n"]
